@@ -57,7 +57,7 @@ CLAIMED = {
              "get_volume and get_concentration equal their definitions from contents (any prefix, numerator/denominator base units); "
              "volumes are additive over transfers; after any history every plate's volume array (get_volumes, any unit prefix) is, well by well, the "
              "volume of that well's contents and Plate.get_volume their sum; with substances named an entry is the sum of those substances' "
-             "amounts in that well (PlateObs.v). The numpy side of the plate observers (get_volumes, get_moles, get_substances: vectorize, "
+             "amounts in that well (PlateObs.v); a slice reports one entry per addressed well and ignores the others; reported volumes of a container and a plate are additive over region transfers (PlateVol.v). The model's arrays are also evaluated in Coq on the same histories and compared with get_volumes / get_volume / row slices of the implementation. The numpy side of the plate observers (get_volumes, get_moles, get_substances: vectorize, "
              "round, slices) is checked against the model's wells by the oracle on the implementation.",
              technique="Coq proof (history invariant + observer definitions); differential correspondence; observer recomputation with exact fractions",
              design="5 C10"),
